@@ -24,7 +24,7 @@ pub fn dispatch(op: &str, a: &[&str]) -> Option<Ans> {
         // ------------------------------------------------------------------ X25519
         "scalarmult" => {
             let (n, p): ([u8; 32], [u8; 32]) = (arr(&b[0]), arr(&b[1]));
-            let mut q = [0u8; 32];
+            let mut q = [0xA5u8; 32];
             crypto_scalarmult(&mut q, &n, &p);
             let mut s = [0u8; 32];
             // libsodium returns -1 for an all-zero result but still writes q; compare the bytes
@@ -33,7 +33,7 @@ pub fn dispatch(op: &str, a: &[&str]) -> Option<Ans> {
         }
         "scalarmult_base" => {
             let n: [u8; 32] = arr(&b[0]);
-            let mut q = [0u8; 32];
+            let mut q = [0xA5u8; 32];
             crypto_scalarmult_base(&mut q, &n);
             let mut s = [0u8; 32];
             unsafe { so::crypto_scalarmult_base(s.as_mut_ptr(), n.as_ptr()) };
@@ -64,7 +64,7 @@ pub fn dispatch(op: &str, a: &[&str]) -> Option<Ans> {
         // kx_client cpk csk spk  → ok rx tx
         "kx_client" | "kx_server" => {
             let (pk, sk, opk): ([u8; 32], [u8; 32], [u8; 32]) = (arr(&b[0]), arr(&b[1]), arr(&b[2]));
-            let (mut rx, mut tx) = ([0u8; 32], [0u8; 32]);
+            let (mut rx, mut tx) = ([0xA5u8; 32], [0xA5u8; 32]);
             let (mut srx, mut stx) = ([0u8; 32], [0u8; 32]);
             let (r, sr) = if op == "kx_client" {
                 (crypto_kx_client_session_keys(&mut rx, &mut tx, &pk, &sk, &opk),
@@ -104,7 +104,7 @@ pub fn dispatch(op: &str, a: &[&str]) -> Option<Ans> {
             let len: usize = a[0].parse().unwrap();
             let id = u64::from_le_bytes(arr(&b[1]));
             let (ctx, key): ([u8; 8], [u8; 32]) = (arr(&b[2]), arr(&b[3]));
-            let mut sub = vec![0u8; len];
+            let mut sub = vec![0xA5u8; len];
             let r = crypto_kdf_derive_from_key(&mut sub, id, &ctx, &key);
             let mut s = vec![0u8; len];
             let sr = unsafe { so::crypto_kdf_derive_from_key(s.as_mut_ptr(), len, id, ctx.as_ptr() as *const _, key.as_ptr()) };
@@ -157,8 +157,8 @@ pub fn dispatch(op: &str, a: &[&str]) -> Option<Ans> {
         // ed_to_curve <ed pk> <ed sk64>  → ok xpk xsk
         "ed_to_curve" => {
             let (pk, sk): ([u8; 32], [u8; 64]) = (arr(&b[0]), arr(&b[1]));
-            let mut xpk = [0u8; 32];
-            let mut xsk = [0u8; 32];
+            let mut xpk = [0xA5u8; 32];
+            let mut xsk = [0xA5u8; 32];
             let r = crypto_sign_ed25519_pk_to_curve25519(&mut xpk, &pk);
             crypto_sign_ed25519_sk_to_curve25519(&mut xsk, &sk);
             let (mut spk, mut ssk) = ([0u8; 32], [0u8; 32]);
@@ -176,9 +176,9 @@ pub fn dispatch(op: &str, a: &[&str]) -> Option<Ans> {
         "sign" => {
             let sk: [u8; 64] = arr(&b[0]);
             let m = &b[1];
-            let mut sig = [0u8; 64];
+            let mut sig = [0xA5u8; 64];
             let r = crypto_sign_detached(&mut sig, m, &sk);
-            let mut sm = vec![0u8; m.len() + 64];
+            let mut sm = vec![0xA5u8; m.len() + 64];
             let r2 = crypto_sign(&mut sm, m, &sk);
             let mut ssig = [0u8; 64];
             unsafe { so::crypto_sign_detached(ssig.as_mut_ptr(), std::ptr::null_mut(), m.as_ptr(), m.len() as u64, sk.as_ptr()) };
@@ -214,7 +214,7 @@ pub fn dispatch(op: &str, a: &[&str]) -> Option<Ans> {
                 os.update(c);
                 unsafe { so::crypto_sign_update(&mut sst, c.as_ptr(), c.len() as u64) };
             }
-            let mut sig = [0u8; 64];
+            let mut sig = [0xA5u8; 64];
             let r = crypto_sign_final_create(st, &mut sig, &sk);
             let osig: Result<Vec<u8>, _> = os.finalize(&sk);
             let mut ssig = [0u8; 64];
